@@ -19,24 +19,24 @@ CFG = {
         ("udp", dict(Socks='{"udp"}', Lites="{FALSE}",
                      UserAlpha='{"ok", "missing", "wrong"}',
                      MiAlpha='{"ok", "missing", "wrongKey", "remoteKey", "garbled"}',
-                     FpAlpha='{"ok", "none"}'), (200, 8)),
+                     FpAlpha='{"ok", "none"}'), (8, 8)),
         # shared single-port UDP socket: the demux in front of the agent adds routing state (9x the states);
         # enable_ice_lite (no effect on the ICE transport in WebRTC mode) is varied across the two entries
         ("mux", dict(Socks='{"mux"}', Lites="{TRUE}",
                      UserAlpha='{"ok", "missing", "wrong"}',
                      MiAlpha='{"ok", "missing"}',
-                     FpAlpha='{"ok"}'), (100, 8)),
+                     FpAlpha='{"ok"}'), (8, 8)),
         # ICE-TCP: requests arrive on connections accepted by the agent's passive TCP candidate (RFC 4571 frames)
         ("tcp", dict(Socks='{"tcp"}', Lites="{FALSE}",
                      UserAlpha='{"ok", "missing", "wrong"}',
                      MiAlpha='{"ok", "missing", "wrongKey", "remoteKey", "garbled"}',
-                     FpAlpha='{"ok", "none"}'), (60, 6)),
+                     FpAlpha='{"ok", "none"}'), (8, 6)),
         # the process-wide shared single-port ICE-TCP listener: the first frame of a new connection is demultiplexed
         # by the ufrag in its USERNAME and attaches the connection; later frames arrive on the attached connection
         ("tcpmux", dict(Socks='{"tcpmux"}', Lites="{FALSE}",
                         UserAlpha='{"ok", "missing", "wrong"}',
                         MiAlpha='{"ok", "missing", "wrongKey", "remoteKey", "garbled"}',
-                        FpAlpha='{"ok"}'), (60, 6)),
+                        FpAlpha='{"ok"}'), (8, 6)),
         # through a TURN relay (fake TURN server of the harness): the agent's only local candidate is the relay candidate;
         # a packet arrives wrapped in a Data indication, as ChannelData on the channel bound for its source, or BARE on the
         # TURN client's 5-tuple (from the server address / from a stranger), where it is dispatched with the agent's own
@@ -44,32 +44,32 @@ CFG = {
         ("turn", dict(Socks='{"turn"}', Lites="{FALSE}",
                       UserAlpha='{"ok", "missing", "wrong"}',
                       MiAlpha='{"ok", "missing"}',
-                      FpAlpha='{"ok"}'), (40, 6)),
+                      FpAlpha='{"ok"}'), (8, 6)),
     ],
     "thorough": [
         ("udp-fine", dict(Socks='{"udp"}', Lites="{FALSE, TRUE}",
                           UserAlpha='{"ok", "missing", "wrong", "swapped", "prefix", "nocolon", "empty"}',
                           MiAlpha='{"ok", "missing", "wrongKey", "remoteKey", "emptyKey", "ufragKey", "garbled", '
                                   '"garbledBody", "truncated"}',
-                          FpAlpha='{"ok", "none"}'), (3000, 12)),
+                          FpAlpha='{"ok", "none"}'), (60, 12)),
         ("mux-fine", dict(Socks='{"mux"}', Lites="{FALSE, TRUE}",
                           UserAlpha='{"ok", "missing", "wrong", "swapped", "nocolon"}',
                           MiAlpha='{"ok", "missing", "wrongKey", "remoteKey", "garbled"}',
-                          FpAlpha='{"ok", "none"}'), (1000, 12)),
+                          FpAlpha='{"ok", "none"}'), (30, 12)),
         ("tcp-fine", dict(Socks='{"tcp"}', Lites="{FALSE, TRUE}",
                           UserAlpha='{"ok", "missing", "wrong", "swapped", "prefix", "nocolon", "empty"}',
                           MiAlpha='{"ok", "missing", "wrongKey", "remoteKey", "emptyKey", "ufragKey", "garbled", '
                                   '"garbledBody", "truncated"}',
-                          FpAlpha='{"ok", "none"}'), (500, 8)),
+                          FpAlpha='{"ok", "none"}'), (30, 8)),
         ("tcpmux-fine", dict(Socks='{"tcpmux"}', Lites="{FALSE, TRUE}",
                              UserAlpha='{"ok", "missing", "wrong", "swapped", "prefix", "nocolon", "empty"}',
                              MiAlpha='{"ok", "missing", "wrongKey", "remoteKey", "emptyKey", "ufragKey", "garbled", '
                                      '"garbledBody", "truncated"}',
-                             FpAlpha='{"ok", "none"}'), (500, 8)),
+                             FpAlpha='{"ok", "none"}'), (30, 8)),
         ("turn-fine", dict(Socks='{"turn"}', Lites="{FALSE}",
                            UserAlpha='{"ok", "missing", "wrong", "swapped", "nocolon"}',
                            MiAlpha='{"ok", "missing", "wrongKey", "remoteKey", "garbled"}',
-                           FpAlpha='{"ok", "none"}'), (500, 8)),
+                           FpAlpha='{"ok", "none"}'), (30, 8)),
     ],
 }
 
@@ -178,7 +178,7 @@ def run(tier):
         exhaustive = exhaustive and res["finished"] and summ["edges"] == res["counts"]["EDGE"] and summ["skipped"] == 0
         os.remove(edges)
         # G-sim: random behaviours with their real, unmerged histories (inert inputs stay in the prefix), every
-        # out-edge of every visited state: catches implementation state that the model state does not determine
+        # out-edge of every visited state (TLC prints all of them: about 50-100 edges per visited state): catches implementation state that the model state does not determine
         cfg = os.path.join(vlib.SPEC, f"MC_IceAgent_{tier}_sim.gen.cfg")
         write_cfg(cfg, consts, emit=True)
         edges = os.path.join(ck.dir, f"edges_{tier}_{label}_sim.ndjson")
